@@ -3296,7 +3296,7 @@ def run_receiver_case(res, ctx, th, spec, tmp, lines=None, pending=None):
     and in between (rtol 1e-8), and that stores the file's training data - WHATEVER THE RECEIVER HELD BEFORE: nothing (fresh), a
     training of the same quantities on other points (coarser / shifted / other temperatures), an older file, other quantities
     only, or the original itself.  A quantity the file does not hold is untrained in the original: the receiver must not keep
-    a fitted model for it (finding `surrogate-receiver-keeps-model-of-quantity-not-in-file`).  The Lean model of the fitting state
+    a fitted model for it (key `surrogate-receiver-keeps-model-of-quantity-not-in-file:<quantity>`; genuine defect found by this oracle, repaired in /repo as 1756dd7).  The Lean model of the fitting state
     (KawinV.SurrogateFit.loadInto) is run on the same receiver histories."""
     vlib.use_repo()
     from kawin.thermo import BinarySurrogate, MulticomponentSurrogate
@@ -3403,7 +3403,7 @@ def run_receiver_case(res, ctx, th, spec, tmp, lines=None, pending=None):
                     obs = 'answers from the model fitted before the load: %s' % [brief(o) for o in out]
                 except Exception as e:
                     obs = 'getter raises %s: %s' % (type(e).__name__, str(e)[:80])
-                res.violate(STALE_KEY, '%s: the file holds %s; the receiver had been trained for %s before: after fromJson its stored %s data are the file\'s (none for phase %s) but it still '
+                res.violate('%s:%s' % (STALE_KEY, q), '%s: the file holds %s; the receiver had been trained for %s before: after fromJson its stored %s data are the file\'s (none for phase %s) but it still '
                             'holds the fitted %s model, so its getter no longer passes through to the thermodynamics as the original does (%s)' % (cname, fq, q, q, ph, q, obs),
                             dict(desc, quantity=q), observed=obs, required='no fitted %s model left: the original the file was written from is untrained for %s' % (q, q))
         after = receiver_fit_infos(r)
